@@ -1,7 +1,7 @@
 CONSTANTS
-  TIMEOUTS = FALSE
+  TIMEOUTS = TRUE
   NOTIFYEXIT = TRUE
-  FIXED = FALSE
-  FIXALL = FALSE
+  FIXED = TRUE
+  FIXALL = TRUE
 SPECIFICATION Spec
 PROPERTY Termination
